@@ -77,6 +77,31 @@ theorem dynamic_follows (T : Term) (w0 : Win) (h : List Op) (hw : w0.ok) (hr : r
   · simp only [getCellRatio, hd]
   · exact getCellSize_freshCell false T _ _ _ hI (hread trivial)
 
+/-- CONSUMERS follow: the graphics-image conversions between pixels and cells (`_pixels_cols`,
+    `_pixels_lines`, `_get_render_size`) use a fresh cell size (or the `(1, 2)` fallback) after every
+    history satisfying the proviso — in particular after every toggle — and read it exactly once. -/
+theorem consumers_follow (T : Term) (w0 : Win) (h : List Op) (k : UseKind) (n : Nat) (hw : w0.ok)
+    (hr : resizesOk h) (hp : cellProviso T (St.init w0) none (h ++ [.useCell k n])) :
+    ∃ c, (useCell T (exec T (St.init w0) h).toCore k n).2.1 = useVal k n (c.getD Generated.fallbackCell) ∧
+      FreshCell T (exec T (St.init w0) h).toCore c := by
+  rw [cellProviso_append] at hp
+  have hI := inv_reach true false T w0 h hw hr (fun _ => hp.1) (fun h => by cases h)
+  have hread := hp.2.1
+  simp only [step, St.lift, useCell, getCellSize_reads, readWin] at hread
+  exact ⟨_, rfl, getCellSize_freshCell false T _ _ _ hI (hread trivial)⟩
+
+/-- closed world: the only memoized functions of the package (every use of `cached`,
+    `terminal_size_cached`, `functools.lru_cache/cache/cached_property`, found by an AST scan of all its
+    modules) are the two the model carries and `enable_queries()` invalidates — a new memo anywhere
+    (e.g. a derived per-terminal-size memo over `get_cell_size`) breaks this obligation -/
+theorem generated_memo_closed_world :
+    Generated.memoized = ["term_image.utils:get_fg_bg_colors:cached",
+      "term_image.utils:get_terminal_name_version:cached"] := by decide
+
+/-- the hand-over of the cache to a shared `Array` at the first `Process.start()` happens while
+    holding `_cell_size_lock`, i.e. never while a lookup is in flight (AST of `_process_start_wrapper`) -/
+theorem generated_handover_locked : Generated.handoverUnderCellLock = true := by decide
+
 /-- FIXED is a snapshot: once the ratio is a (truthy) value — set by FIXED or by a float —
     `get_cell_ratio()` returns exactly it and computes nothing, whatever resizes, toggles and
     reads happen, until the next `set_cell_ratio`. -/
@@ -100,6 +125,9 @@ theorem fixed_snapshot (T : Term) (s : St) (r : RatioVal) (h : List Op)
         | getCellSizeR p w =>
           obtain ⟨c, hc⟩ := getCellSize_frame T { s.toCore with win := mixWin p s.win w }
           simp only [step, getCellSizeR, hc]; exact hs
+        | useCell k n =>
+          obtain ⟨c, hc⟩ := getCellSize_frame T s.toCore
+          simp only [step, St.lift, useCell, hc]; exact hs
         | getCellRatio =>
           simp only [step, St.lift, getCellRatio, hs, ht, if_true]
         | getColors k =>
